@@ -8,6 +8,7 @@ import (
 	"os"
 	"runtime/debug"
 	"runtime/pprof"
+	"time"
 
 	"verif.local/mc/report"
 )
@@ -41,6 +42,9 @@ func main() {
 		f, _ := os.Create(pf)
 		pprof.StartCPUProfile(f)
 		k.AtExit = pprof.StopCPUProfile
+		if os.Getenv("VERIF_PPROF_SECS") != "" {
+			go func() { time.Sleep(12 * time.Second); pprof.StopCPUProfile(); os.Exit(0) }()
+		}
 	}
 	c.run(k)
 	k.Finish()
